@@ -354,6 +354,9 @@ def run_given(module, sub: Sub, ctx: Ctx, n: int, seed: int, known, wall_budget:
         pass
     except Exception as e:  # hypothesis Flaky etc.
         if st["last"] is None:
+            if stats.budget_hit and "Flaky" in type(e).__name__:
+                stats.inconclusive["wall-budget-stop"] += 1  # same rule as run_machine: a budget stop is inconclusive
+                return stats, None
             raise
         st["flaky"] = repr(e)[:300]
     return stats, _viol(sub, st)
